@@ -183,7 +183,11 @@ func ToCommandLine(wf WireFormat, resolveIds bool) (rule string, err error) {
 		if err != nil {
 			return "", err
 		}
-		arguments = append(arguments, "-F", fmt.Sprintf("arch=%s", r.arch))
+		op, found := reverseOperatorsTable[r.fieldFlags[fieldIdx]]
+		if !found {
+			return "", fmt.Errorf("field operator %x not found", r.fieldFlags[fieldIdx])
+		}
+		arguments = append(arguments, "-F", fmt.Sprintf("arch%s%s", op, r.arch))
 	}
 
 	// Parse syscalls
